@@ -120,6 +120,15 @@ def analyze(ns):
       fn, _ = _gen_wrapper(ns.module, ns.cond, fixes, ns.extra_pre)
     else:
       fn = orig
+    # Never short-circuit calls to functions that carry contracts (CrossHair would
+    # replace the body of a called condition by its postcondition: vacuous).
+    from crosshair import core as _core
+    _core.ShortCircuitingContext.make_interceptor = lambda self, original: original
+    # ... and never *enforce* contracts of called functions either: a failing
+    # postcondition of a nested condition is otherwise silently ignored
+    # ('Ignoring based on internal failed post condition').
+    from crosshair import enforce as _enforce
+    _enforce.EnforcedConditions.trace_call = lambda self, frame, fn, binding_target: None
     # Floats: bit-precise IEEE-754 binary64 only.  CrossHair's default also forks to a
     # real-number model whose paths it caps at 'unknown'; we never rely on it.
     from crosshair.libimpl import builtinslib as _bl
